@@ -784,6 +784,69 @@ def core_shadow_every_name(chk):
 
 
 # ------------------------------------------------------------------------------------------------------------------
+def scope_end_on_errors(chk):
+    """"Local macros stop applying when their scope ends" - also when the scope ends by a compile-time error and the same compiler
+    goes on compiling (the REPL keeps one compiler for the session; hy_compile accepts a compiler).  Frame condition on
+    HyASTCompiler.local_state: the stack of local states is what it was, whichever way the block is left; end to end: after a failed
+    fn / defn / defclass / comprehension body with a local defmacro or a pragma, module-level forms see the module's macros only."""
+    import io
+    import contextlib
+    import types
+    import warnings
+    import hy
+    from hy.compiler import HyASTCompiler, hy_compile
+    comp = HyASTCompiler(types.ModuleType("hv_c35_ls"))
+    depth = len(comp.local_state_stack)
+    outcomes = {}
+    for how in ("return", "HySyntaxError", "ValueError", "KeyboardInterrupt"):
+        try:
+            with comp.local_state():
+                inner = len(comp.local_state_stack)
+                if how == "HySyntaxError":
+                    raise hy.errors.HySyntaxError("x")
+                if how == "ValueError":
+                    raise ValueError("x")
+                if how == "KeyboardInterrupt":
+                    raise KeyboardInterrupt()
+        except BaseException:  # noqa: BLE001
+            pass
+        outcomes[how] = (inner, len(comp.local_state_stack))
+    chk.case("local_state")
+    chk.ob("scope-end/HyASTCompiler.local_state pushes one local state and pops it on every exit, normal or exceptional",
+           all(v == (depth + 1, depth) for v in outcomes.values()), "structural", "proved", detail=str(outcomes))
+    bad = []
+    for scope, body in (("defn", "(defn u-f [] {} (setv 1 2))"), ("fn", "(fn [] {} (setv 1 2))"), ("defclass", "(defclass U-C [] {} (setv 1 2))"),
+                        ("lfor", "(lfor x [1] (do {} (setv 1 2)))"), ("nested defn", "(defn u-f [] (defn u-g [] {} (setv 1 2)))")):
+        mod = types.ModuleType("hv_c35_se")
+        comp = HyASTCompiler(mod)
+
+        def ev(src):
+            with warnings.catch_warnings(record=True) as w:
+                warnings.simplefilter("always")
+                try:
+                    tree, expr = hy_compile(hy.read_many(src), mod, compiler=comp, get_expr=True, import_stdlib=False)
+                    exec(compile(tree, "<c35>", "exec"), mod.__dict__)
+                    v = eval(compile(expr, "<c35>", "eval"), mod.__dict__)
+                except Exception as e:  # noqa: BLE001
+                    v = type(e).__name__
+            return v, [str(x.message) for x in w]
+        ev('(defmacro greet [] "module greet")')
+        failed = ev(body.format('(defmacro greet [] "local greet") (defmacro only-local [] 1) (pragma :warn-on-core-shadow False)'))
+        r1 = ev("(greet)")
+        r2 = ev("(only-local)")
+        r3 = ev('(defmacro when [#* a] "my when")')
+        r4 = ev('(defmacro top [] 7)')
+        chk.case(("scope-end", scope))
+        ok = (failed[0] in ("HySyntaxError", "HyMacroExpansionError") and r1[0] == "module greet" and r2[0] == "NameError"
+              and any("shadow" in m for m in r3[1]) and "top" in getattr(mod, "_hy_macros", {}) and len(comp.local_state_stack) == 1)
+        if not ok:
+            bad.append((scope, failed[0], r1[0], r2[0], r3[1], sorted(getattr(mod, "_hy_macros", {})), len(comp.local_state_stack)))
+    chk.ob("scope-end/after a scope whose body failed to compile, the same compiler sees only module macros at module level "
+           "(local macros, pragmas and the local-state depth are gone)", not bad, "rtc", "exhaustive_finite", detail=str(bad[:2]),
+           replay=None if not bad else {"confirmed": True, "input": f"one compiler: a failing {bad[0][0]} with a local defmacro greet, then (greet) at module level",
+                                        "observed": str(bad[0][1:])})
+
+
 def run(chk):
     global CORE
     chk.level = "other"
@@ -801,6 +864,7 @@ def run(chk):
               "pragma, hy.eval)")
     CORE = frozenset(builtins._hy_macros)
     core_shadow_every_name(chk)
+    scope_end_on_errors(chk)
     os.makedirs("/root/scratch", exist_ok=True)
     scratch = tempfile.mkdtemp(prefix="c35_", dir="/root/scratch")
     sys.path.insert(0, scratch)
